@@ -146,6 +146,15 @@ pub fn gen(c: &Chain, cfg: &Cfg, m: &Menu, rng: &mut Rng, kind: &str) -> Option<
             let k = if rng.chance(3, 4) { "increase_allowance" } else { "decrease_allowance" };
             exec(&u, t, json!({"k": k, "spender": v, "amount": 1 + rng.below(m.amax), "expires": exp}), json!([]))
         }
+        // zero-amount allowance updates that only carry a (new) expiration
+        "allow_zero" => {
+            let t = *rng.pick(&["bsei", "stsei"]);
+            if u == v {
+                return None;
+            }
+            let exp = if rng.chance(1, 2) { json!({"k": "time", "v": c.time + rng.below(6)}) } else { json!({"k": "height", "v": c.height + rng.below(3)}) };
+            exec(&u, t, json!({"k": *rng.pick(&["decrease_allowance", "increase_allowance"]), "spender": v, "amount": 0, "expires": exp}), json!([]))
+        }
         "from_b" | "from_st" => {
             let t = if kind == "from_b" { "bsei" } else { "stsei" };
             // v spends u's tokens; three times out of four a pair with a usable allowance, if there is one
